@@ -209,8 +209,34 @@ func stateOf(s *store.ImmuStore) replicaState {
 	return replicaState{s.LastPrecommittedTxID(), s.LastCommittedTxID()}
 }
 
+// Gen: VERIF_C16_ONLY=<part> (development aid) restricts a run to one part:
+// store | appmd | probes | pgsql | stream | opentime | repl
 func Gen(r *vk.Run, n int) error {
 	budget := n
+	only := os.Getenv("VERIF_C16_ONLY")
+	want := func(part string) bool { return only == "" || only == part }
+	if want("store") {
+		genStoreCodecs(r, budget)
+	}
+	// --- appendable metadata (modelled) and the un-modelled parsers (probes: falsifier only)
+	if want("appmd") {
+		genAppMd(r, budget/3)
+	}
+	if want("probes") {
+		genProbes(r, budget/30)
+	}
+	// --- PostgreSQL wire messages and framing (modelled: Wire/PgMsg.v)
+	if want("pgsql") {
+		genPgsql(r, budget/7)
+	}
+	// --- ReplicateTx on real stores
+	if want("repl") {
+		return genRepl(r, budget/3)
+	}
+	return nil
+}
+
+func genStoreCodecs(r *vk.Run, budget int) {
 	// --- TxMetadata
 	for _, v := range validTxMds(r) {
 		caseTxMd(r, v, "valid")
@@ -249,11 +275,6 @@ func Gen(r *vk.Run, n int) error {
 	for k := 0; k < budget/20; k++ {
 		caseHdr(r, vk.SmallBiased(r.Rng, 110+r.Rng.Intn(60)), "random")
 	}
-	// --- appendable metadata (modelled) and the un-modelled parsers (probes: falsifier only)
-	genAppMd(r, budget/3)
-	genProbes(r, budget/30)
-	// --- ReplicateTx on real stores
-	return genRepl(r, budget/3)
 }
 
 func genRepl(r *vk.Run, budget int) error {
